@@ -15,9 +15,9 @@ warnings.simplefilter("ignore", FutureWarning)
 SYNTAXES = ["emacs", "posix-basic", "posix-extended", "grep", "ed", "sed"]
 BASIC = ("posix-basic", "ed", "sed")
 
-LITS = list("abcABab/.-_+") + ["é", "(", ")", "{", "}", "|", "?", "*", "^", "$", "[", " ", "#", "\t", " ", "#", ",", ":", "=", "!", "&",
+LITS = list("abcABab/.-_+") + ["é", "(", ")", "{", "}", "|", "?", "*", "^", "$", "[", " ", "#", "\t", " ", "#", ",", ":", "=", "!", "&", "\\", "\\",
                                 "<", ">", "~", "'", '"', "@", "%", ";"]
-PATH_CHARS = list("abcAB/.-_+") + ["é", "(", "|", "?", "*", "{", " ", "#", "\t", "=", "<", "'"]
+PATH_CHARS = list("abcAB/.-_+") + ["é", "(", "|", "?", "*", "{", " ", "#", "\t", "=", "<", "'", "\\"]
 
 # characters that need a backslash to be literal outside brackets, per syntax
 ESCAPE = {
@@ -530,6 +530,42 @@ def long_path_worker(job):
     return st
 
 
+def newline_worker(job):
+    """-iregex is -regex with letter case ignored - and nothing else: on paths and patterns without any letter the two must agree, in
+    every syntax, also when the path contains a newline that '.' or a negated set has to consume (what '.' does with a newline is
+    the syntax's business and not judged; that -iregex does the same as -regex is)."""
+    k, seed = job
+    st = Stats()
+    rng = common.rng_for(seed, "C17nl", k)
+    base = common.mkscratch("C17n%d" % k)
+    try:
+        lines, meta = [], {}
+        pats = ["1/2.3", ".*", "1/.*", ".*3", "1/2[^/]3", "1/2[^4]*", "[^/]*/[^/]*", "1/2.*3", "1/2\n3", ".*[\n].*", "1/..3", "1/2.3.*"]
+        paths = ["1/2\n3", "1/2-3", "1/2\n\n3", "\n", "1/\n", "1/23", "1/2\n3\n", "1/2 3", "1/2\t3"]
+        for i, pat in enumerate(pats):
+            for syntax in SYNTAXES:
+                for test in ("-regex", "-iregex"):
+                    cid = "n%d_%d_%s_%s" % (k, i, syntax, test)
+                    args = ["-regextype", syntax, test, pat]
+                    meta[cid] = (pat, syntax, test, args)
+                    lines.append("\t".join([cid, "P", "1", str(len(args))] + [common.hx(a) for a in args] + [common.hx(p_) for p_ in paths]))
+        res = common.run_vh("match", lines, base, cwd=base, per_case_timeout=60)
+        for i, pat in enumerate(pats):
+            for syntax in SYNTAXES:
+                a = res.get("n%d_%d_%s_-regex" % (k, i, syntax))
+                b = res.get("n%d_%d_%s_-iregex" % (k, i, syntax))
+                st.inc("evaluations", len(paths))
+                st.inc("letter_free_regex_iregex_pairs")
+                if a is None or b is None or a[0] != b[0] or (a[0] == "ok" and a[2] != b[2]):
+                    st.violate("regex-mismatch", None, {"pattern": pat, "syntax": syntax, "paths": paths, "regex": a and a[:3], "iregex": b and b[:3],
+                                                        "shape": "letter-free -regex vs -iregex"}, {"pattern": pat, "syntax": syntax, "paths": paths})
+                elif a[0] == "ok" and "1" in a[2]:
+                    st.inc("letter_free_pairs_with_members")
+    finally:
+        common.force_rmtree(base)
+    return st
+
+
 def binary_worker(job):
     """The same oracle through the real binary on a real tree: paths come from the walk, selection from -print0."""
     import os
@@ -658,6 +694,8 @@ def run(ctx):
     ng = 4 if ctx.tier == "quick" else 16
     ctx.pmap(giveup_worker, [(k, ctx.seed) for k in range(ng)])
     ctx.require("giveup_sequences", 4)
+    ctx.pmap(newline_worker, [(0, ctx.seed)])
+    ctx.require("letter_free_pairs_with_members", 10)
     ctx.pmap(long_path_worker, [(k, ctx.seed) for k in range(4 if ctx.tier == "quick" else 16)])
     ctx.require("long_path_members", 20)
     ctx.require("members_after_a_give_up", 4)
